@@ -67,7 +67,7 @@ var bigNumTexts = []string{"1e6000", "-1e6000", "1e-6000", "9.99e6144", "1e6145"
 // never drives time or memory.
 func TestC09_Params(t *testing.T) {
 	c := collector("C09", "params")
-	rapid.Check(t, func(t *rapid.T) {
+	check(t, func(t *rapid.T) {
 		n := rapid.IntRange(0, 12).Draw(t, "n")
 		subj := sliceSubject(t, n)
 		doc := jv.VObj([]jv.Member{{K: "a", V: subj}, {K: "s", V: jv.VStr("a,b,,aab,a")}, {K: "arr", V: jv.VArr([]jv.Val{jv.VInt(1), jv.VInt(2), jv.VInt(3)})}})
@@ -239,7 +239,8 @@ var nestFamilies = func() []family {
 		rec := func(i int) run.Node {
 			return run.Node{T: "object", K: []string{"v", "k"}, A: []run.Node{{T: "array", A: []run.Node{{T: "json.Number", S: strconv.Itoa(i)}}}, {T: "json.Number", S: strconv.Itoa(i % 3)}}}
 		}
-		return run.Node{T: "object", K: []string{"v", "k", "a"}, A: []run.Node{numArray(3, rec), {T: "json.Number", S: "1"}, numArray(3, rec)}}
+		one := run.Node{T: "array", A: []run.Node{{T: "json.Number", S: "1"}}}
+		return run.Node{T: "object", K: []string{"v", "k", "a", "one"}, A: []run.Node{numArray(3, rec), {T: "json.Number", S: "1"}, numArray(3, rec), one}}
 	}
 	wrap := func(name, pre, post string) family {
 		return family{"nest:" + name, func(n int) (string, run.Node) {
@@ -253,6 +254,12 @@ var nestFamilies = func() []family {
 		wrap("list-index", "[", "][0]"), wrap("hash-field", "{v: ", "}.v"), wrap("pipe", "(", " | v)"), wrap("or", "(", " || v)"), wrap("and", "(", " && v)"), wrap("not", "!(", ")"),
 		wrap("let", "let $x = ", " in $x.v"), wrap("let-paren", "(let $x = ", " in $x)[:].v"), wrap("eq", "(", " == @)"), wrap("plus", "(length(", ") + `1`)"), wrap("neg", "-(", ")"),
 		wrap("merge", "merge(", ", `{}`)"), wrap("join", "join(',', to_array(to_string(", ")))"), wrap("filter-nested", "v[?(", ")]"),
+		// nesting inside expression references and conditions, over a
+		// one-element array: every level is evaluated exactly once
+		wrap("ref-max_by", "max_by($.one, &", ")"), wrap("ref-min_by", "min_by($.one, &", ")"), wrap("ref-sort_by", "sort_by($.one, &", ")[0]"),
+		wrap("ref-group_by", "length(group_by($.one, &to_string(", ")))"), wrap("ref-map", "map(&", ", $.one)[0]"), wrap("cond-filter", "$.one[?", "]"),
+		wrap("rhs-projection", "$.one[*].[", "][0]"), wrap("rhs-flatten", "$.one[].[", "][0]"), wrap("let-binding", "let $y = ", " in [$y, $y][0]"),
+		wrap("arg-contains", "contains($.one, ", ") || @"), wrap("arg-zip", "zip($.one, to_array(", "))[0][1]"),
 	}
 }()
 
